@@ -172,10 +172,49 @@ def ob_parse_errors(ctx, res):
             continue
         res.ok(fn, "%s: %d required columns; missing or unparsable -> Some(Err(BedValueError::InvalidInput)); no line yields None" % (name, ncols))
     fn = ctx.ast.fn(BP, "next", impl="BedFileStream")
-    ms = [n for n in walk_no_nested_fn(fn.body) if n.k == "match"]
-    t = up(fn.body)
-    if "Err(e) => return Some(Err(e.into()))" not in t or "Some(Err(e)) => Some(Err(e.into()))" not in t:
-        res.fail("parse/stream/errors", fn, "BedFileStream::next must pass I/O and parse errors on as Some(Err(..))")
+    # evaluated on (reader: end of input | I/O error | a line) x (parser: None | error | value)
+    from ..rules.interp import Interp, NotPure
+    bad = None
+    for rd in (None, ("some", ("err", "IO")), ("some", ("some", "LINE  "))):
+        for pr in (None, ("some", ("err", "PARSE")), ("some", ("some", ("chr", "VAL")))):
+            calls_ = []
+
+            def method(m, recv, args, rd=rd):
+                if recv == "READER" and m == "read" and not args:
+                    return rd
+                if isinstance(recv, str) and m in ("trim_end", "trim") and not args:
+                    return recv.strip() if m == "trim" else recv.rstrip()
+                if m == "into" and not args:
+                    return recv
+                raise NotPure("method " + m)
+
+            def parse(line, pr=pr, calls_=calls_):
+                calls_.append(line)
+                return pr
+            me = {"__ref": True, "bed": "READER", "parse": parse}
+            try:
+                got = Interp(ctx.ast, BP, extern={"None": None, "method": method}).call(fn, [me])
+            except NotPure as e:
+                bad = ("undecided", str(e))
+                break
+            if rd is None:
+                want = None
+            elif rd[1][0] == "err":
+                want = ("some", ("err", "IO"))
+            else:
+                want = pr
+                if calls_ != ["LINE"]:
+                    bad = ("differs", "the parser must be given the line without its line terminator, once; it was called with %s" % calls_)
+                    break
+            if got != want:
+                bad = ("differs", "reader yields %s, parser yields %s: next() returns %s, required %s" % (rd, pr, got, want))
+                break
+        if bad:
+            break
+    if bad and bad[0] == "undecided":
+        res.undecided("parse/stream/errors", fn, "BedFileStream::next not evaluated (%s)" % bad[1])
+    elif bad:
+        res.fail("parse/stream/errors", fn, "BedFileStream::next must pass I/O and parse errors on as Some(Err(..)), values as they are, and end only at the end of input: %s" % bad[1])
     else:
         res.ok(fn, "BedFileStream::next: I/O error -> Some(Err), parse error -> Some(Err), end of input -> None")
 
